@@ -76,7 +76,9 @@ def order_tables(ctx, units, prefixes, prelude, rnd):
         ex.add("od_%d" % i, "auv::Row<%d>" % len(dims), "auv::Row<%d>{{%s}}" % (len(dims), ", ".join(
             "au::InOrderFor<au::Dimension, au::base_dim::%s, au::base_dim::%s>::value" % (a, b) if a != b else "false" for b in dims)))
     mags = ["au::Prime<2>", "au::Prime<3>", "au::Pi", "au::Prime<5>", "au::Prime<7>", "au::Prime<11>", "au::Prime<2147483647>",
-            "au::Prime<2305843009213693951ULL>", "au::Prime<18446744073709551557ULL>"]
+            "au::Prime<2305843009213693951ULL>", "au::Prime<18446744073709551557ULL>",
+            # neighbours that coincide after rounding to double / float: the order must be exact
+            "au::Prime<18446744073709551533ULL>", "au::Prime<1152921504606847009ULL>", "au::Prime<1152921504606847067ULL>", "au::Prime<16777259>", "au::Prime<16777289>"]
     for i, a in enumerate(mags):
         ex.add("om_%d" % i, "auv::Row<%d>" % len(mags), "auv::Row<%d>{{%s}}" % (len(mags), ", ".join(
             "au::InOrderFor<au::Magnitude, %s, %s>::value" % (a, b) if a != b else "false" for b in mags)))
